@@ -5,6 +5,7 @@ import PugModel.Driver.C12
 import PugModel.Driver.C11
 import PugModel.Driver.C09
 import PugModel.Driver.C16
+import PugModel.Driver.C10
 /-!
 `pvd`: the model driver. One JSON case per line on stdin (the line the harness produced, with the
 implementation's answer merged in under "impl" for the cases whose model is relative to measured
@@ -22,6 +23,8 @@ def dispatch (c : Json) : Json × Json :=
   | "gopath" => runGoPath c
   | "gate" => runGateCase c
   | "startup" => runStartupCase c
+  | "loadseq" => runLoadSeqCase c
+  | "loadconc" => runLoadConcCase c
   | k => (clsOut "no-model" k, clsOut "no-model" k)
 
 partial def loop (h : IO.FS.Stream) (out : IO.FS.Stream) : IO Unit := do
